@@ -714,9 +714,9 @@ def gen_estimate_cases(ctx):
                 for data, shots in datas:
                     if quick:
                         # the quick tier samples the grid (every run another sample; the thorough tier runs all of it)
-                        keep = 0.16 if small else (0.04 if heavy else 0.1)
+                        keep = 0.1 if small else (0.04 if heavy else 0.06)
                         if data == "exact" and algo == "bt":
-                            keep = 0.55 if small else (0.12 if heavy else 0.35)
+                            keep = 0.4 if small else (0.12 if heavy else 0.3)
                         if rng.random() >= keep:
                             continue
                     elif heavy and rng.random() >= 0.15:
@@ -1576,6 +1576,36 @@ def sub_run_eq(ctx):
         if not raised:
             ctx.violation("run_eq", ALGO_SITE[case["algo"]], "max-iteration-zero", "max_iteration_optimization=0 returned a value; the model (and the unchanged code) fail", case)
     ctx.run_cases("run_eq", chk0, [{"id": "z" + a, "algo": a} for a in ("bt", "mom", "fista")])
+
+    # the validation before the loops (model C10_precondition, tied to the source by the translator): optimize raises ValueError unless the loss provides
+    # values AND gradients; with both it runs (stub quadratic loss, explicit start point and step parameter, identity projection)
+    def chk_pre(ctx, case):
+        Qm = q()
+        from quara.math import func_proj as fp
+
+        class Stub:
+            def __init__(self, v, g):
+                self.on_value, self.on_gradient, self.on_hessian = v, g, False
+            def value(self, x, validate=False):
+                return float(np.dot(x, x))
+            def gradient(self, x):
+                return 2 * np.asarray(x, dtype=float)
+        A, AO = Qm.ALGO[case["algo"]]
+        kw = dict(var_start=np.array([0.5, -0.25]), max_iteration_optimization=3)
+        kw.update({"bt": dict(mu=1.0), "mom": dict(r=2.0), "fista": dict(delta=0.1)}[case["algo"]])
+        try:
+            with quiet():
+                A(fp.proj_to_self()).optimize(Stub(case["v"], case["g"]), None, AO(**kw)); raised = None
+        except ValueError:
+            raised = "ValueError"
+        except Exception as e:
+            raised = type(e).__name__
+        want = None if (case["v"] and case["g"]) else "ValueError"
+        ctx.count("run_eq", key=("pre", case["algo"], case["v"], case["g"]), nontrivial=True, label="precondition:%s" % ("runs" if want is None else "raises"))
+        if raised != want:
+            ctx.violation("run_eq", ALGO_SITE[case["algo"]], "validation-before-loop", "loss with on_value=%s on_gradient=%s: optimize %s, the model (C10_precondition) says it %s" % (
+                case["v"], case["g"], "raised " + raised if raised else "ran", "runs" if want is None else "raises ValueError"), case)
+    ctx.run_cases("run_eq", chk_pre, [{"id": "v%s%d%d" % (a, v, g), "algo": a, "v": bool(v), "g": bool(g)} for a in ("bt", "mom", "fista") for v in (0, 1) for g in (0, 1)])
 
 
 # ------------------------------------------------------------------ sub-check: ple
